@@ -101,7 +101,7 @@ def check(ctx):
     shifts = [n for n in U.cfg.nodes if isinstance(n.ast, ast.Assign) and src(n.ast.targets[0]) in ("self.start", "self.stop")]
     ok = ok and all(U.dominated_by_edge([s], t[0], "T") for s in shifts) and bool(aug) and U.always_then([U.cfg.entry], aug, skip_exc=True)
     # the compensation is unconditional once the clock went backwards on a retro timer: no further condition on the shifts
-    allowed = {"delta < 0", "self.retro"}
+    allowed = {"delta < 0", "0 > delta", "self.retro"}
     ok = ok and all(U.facts(s) <= allowed for s in shifts)
     ctx.check(ok, "T1-retro", up, "update: delta < 0 => raise iff not retro, else shift start and stop by delta; latest += delta",
               "a backward clock jump must shift both ends of the timer (so elapsed never decreases) or raise without compensation")
